@@ -31,6 +31,47 @@ def correspondence(ctx):
                 samples=[[list(map(str, e)) for e in hs[-1]['events'][:14]]], disagreements=out)
 
 
+REGION = dict(type='RectangularRegion', id='d1', x1=10.0 + 1.0 / 2048, y1=10.0 + 1.0 / 2048, x2=20.0 + 1.0 / 2048, y2=20.0 + 1.0 / 2048)
+
+
+def designed_history(rng):
+    """a print that leaves every per-print field dirty in a chosen way, on a fixed region; the program run afterwards crosses the same
+    region twice"""
+    st = PS.rnd_settings(rng)
+    if rng.random() < 0.7 and not st['enter']:
+        st['enter'] = ['M117 in']; st.pop('enter_text', None)
+    if rng.random() < 0.7 and not st['exit']:
+        st['exit'] = ['M117 out']; st.pop('exit_text', None)
+    evs = [('api', 'addExcludeRegion', dict(REGION), False), ('event', 'PRINT_STARTED'), ('cmd', 'G28'), ('cmd', 'G1 X5 Y5 Z0.3 E1 F3000')]
+    dirty = rng.sample(['wipe-entry', 'owed', 'inch', 'relative', 'disabled', 'deferred', 'plain-entry', 'fw', 'two-episodes', 'g92'], rng.randint(1, 4))
+    for d in dirty:
+        if d == 'wipe-entry':
+            evs += [('cmd', 'G1 X15 Y15 E0.2'), ('cmd', 'G1 X16 Y16 E0.5'), ('cmd', 'G1 X30 Y30 E1'), ('cmd', 'G1 X5 Y5 E1.5')]
+        elif d == 'owed':
+            evs += [('cmd', 'G1 E0.5'), ('cmd', 'G1 X15 Y15'), ('cmd', 'G1 E1.5')]
+        elif d == 'inch':
+            evs += [('cmd', 'G20')]
+        elif d == 'relative':
+            evs += [('cmd', 'G91')]
+        elif d == 'disabled':
+            evs += [('at', '@ExcludeRegion off', False)]
+        elif d == 'deferred':
+            evs += [('cmd', 'G90'), ('cmd', 'G21'), ('cmd', 'G1 X15 Y15 E2'), ('cmd', 'M204 S900'), ('cmd', 'M117 deferred'), ('cmd', 'M73 P7')]
+        elif d == 'plain-entry':
+            evs += [('cmd', 'G1 X15 Y15 E2'), ('cmd', 'G1 X40 Y40 E3')]
+        elif d == 'fw':
+            evs += [('cmd', 'G10'), ('cmd', 'G1 X15 Y15'), ('cmd', 'G11')]
+        elif d == 'two-episodes':
+            evs += [('cmd', 'G1 X15 Y15 E2'), ('cmd', 'G1 X40 Y40 E3'), ('cmd', 'G1 X15 Y15 E2.5'), ('cmd', 'G1 X40 Y40 E4')]
+        elif d == 'g92':
+            evs += [('cmd', 'G92 E0'), ('cmd', 'G1 F1234')]
+    evs += rng.choice([[], [('event', 'PRINT_CANCELLED')], [('event', 'PRINT_FAILED')], [('script', 'gcode', 'afterPrintDone'), ('event', 'PRINT_DONE')], [('event', 'ERROR')]])
+    tail = [('cmd', 'G28'), ('cmd', 'G1 X5 Y5 Z0.3 E1 F3000'), ('cmd', 'M204 S500'), ('cmd', 'G1 X15 Y15 E0.5'), ('cmd', 'M204 S700'), ('cmd', 'G1 X16 Y16 E2'),
+            ('cmd', 'G1 X30 Y30 E3'), ('cmd', 'G1 E2'), ('cmd', 'G1 X15 Y15'), ('cmd', 'G1 E3'), ('cmd', 'G1 X40 Y40'), ('cmd', 'G1 X41 Y41 E4'),
+            ('cmd', 'G10'), ('cmd', 'G1 X12 Y12'), ('cmd', 'G11'), ('cmd', 'G1 X50 Y50 E5'), ('script', 'gcode', 'afterPrintDone')]
+    return dict(settings=st, events=evs, tail=tail)
+
+
 def oracle(ctx, budget=1, replay=None, hints=None):
     fails, n = [], 120 * budget
     dist = dict(histories=0, events=0)
@@ -38,8 +79,17 @@ def oracle(ctx, budget=1, replay=None, hints=None):
         h = PS.gen_history(ctx.rng)
         dist['histories'] += 1
         dist['events'] += len(h['events'])
-        h['tail'] = [e for e in PS.gen_history(ctx.rng)['events'] if e[0] in ('cmd', 'at', 'script')][:60]
-        h['tail'] = [('cmd', 'G28')] + h['tail']
+        # the program run after print-started: mostly the history's own path again (it crosses the regions that are still defined),
+        # sometimes an unrelated one
+        src = h if ctx.rng.random() < 0.7 else PS.gen_history(ctx.rng)
+        h['tail'] = [('cmd', 'G28')] + [e for e in src['events'] if e[0] in ('cmd', 'at', 'script')][:80]
+        f = PO.check_C10(h, ctx.rng)
+        if f:
+            fails.append(f[0])
+    for _ in range(40 * budget):
+        h = designed_history(ctx.rng)
+        dist['histories'] += 1
+        n += 1
         f = PO.check_C10(h, ctx.rng)
         if f:
             fails.append(f[0])
